@@ -320,6 +320,8 @@ func c31NewFixture(c *verifmc.Check, nS, nP, nH int) *c31Fixture {
 		}
 	}
 	f.finalize(deps...)
+	stage := func(what string) { fmt.Printf("c31 fixture: %-22s at %.1fs\n", what, time.Since(t0).Seconds()) }
+	stage("deposits finalized")
 
 	// 2. fan-out transfers G: up to 240 outputs of 256 one-time keys, threshold 1
 	gs := make([]*common.VersionedTransaction, nG)
@@ -345,6 +347,7 @@ func c31NewFixture(c *verifmc.Check, nS, nP, nH int) *c31Fixture {
 		}
 		gs[orefs[i].g].Outputs[orefs[i].o] = out
 	})
+	stage("fan-out outputs derived")
 	for g := range gs {
 		gs[g] = fixc.SignAll(&gs[g].Transaction, store, [][]*common.Address{w})
 		if err := gs[g].Validate(store, f.Ts, false); err != nil {
@@ -352,6 +355,7 @@ func c31NewFixture(c *verifmc.Check, nS, nP, nH int) *c31Fixture {
 		}
 		f.finalize(gs[g])
 	}
+	stage("fan-outs finalized")
 
 	// 3. members
 	f.Now = clock.NowUnixNano()
@@ -404,6 +408,7 @@ func c31NewFixture(c *verifmc.Check, nS, nP, nH int) *c31Fixture {
 		}
 		ver.SignaturesMap[i] = sigs
 	})
+	stage("members signed")
 	f.BuildS = time.Since(t0).Seconds()
 	return f
 }
@@ -667,6 +672,7 @@ func TestMC_C31(t *testing.T) {
 	}
 	c.Set("build_s", f.BuildS)
 	c.Set("measure_s", time.Since(tm).Seconds())
+	fmt.Printf("c31: build %.1fs measure %.1fs unsigned=%v envelope=%v\n", f.BuildS, time.Since(tm).Seconds(), unsigned, envelope)
 	c.Set("class_sizes", map[string]any{"unsigned": unsigned, "envelope": envelope, "order": "S,P,H"})
 	for cl := range unsigned {
 		c.Require(unsigned[cl] <= c31TxMax && envelope[cl] <= c31TxMax && envelope[cl] > unsigned[cl], "class %s sizes out of range: %d %d", c31ClassName[cl], unsigned[cl], envelope[cl])
@@ -674,8 +680,8 @@ func TestMC_C31(t *testing.T) {
 	c.Require(envelope[c31H]-unsigned[c31H] > 1300000 && unsigned[c31P] > 4000000, "classes are not the planned heavy ones: %v %v", unsigned, envelope)
 
 	// snapshot length formula from the real encoder: base + 32 per transaction
-	snapBase := len(c31Snapshot(f, nil).VersionedMarshal())
-	for n := 0; n <= c31Retrieve; n++ {
+	snapBase := len(c31Snapshot(f, []*common.VersionedTransaction{f.S[0].Ver}).VersionedMarshal()) - 32
+	for n := 1; n <= c31Retrieve; n++ {
 		s := c31Snapshot(f, nil)
 		for i := 0; i < n; i++ {
 			s.Transactions = append(s.Transactions, fixc.Hash(fmt.Sprint("c31-t", i)))
@@ -686,7 +692,7 @@ func TestMC_C31(t *testing.T) {
 
 	// ---- conformance (i): the length formula against the real builders ----
 	formulaChecks := 0
-	verifmc.Sequences(3, 0, 3, func(seq []int) bool {
+	verifmc.Sequences(3, 1, 3, func(seq []int) bool {
 		var b [3]int
 		var members []*c31Tx
 		for _, cl := range seq {
@@ -734,7 +740,9 @@ func TestMC_C31(t *testing.T) {
 				replayH += r.N
 			}
 		}
+		tr := time.Now()
 		actions, ret, p := f.runBatcher(queue)
+		fmt.Printf("c31 replay: %-28s %-18s -> %s in %.1fs\n", name, why, c31Shape(actions), time.Since(tr).Seconds())
 		if p != nil {
 			c.Require(false, "trace %s: batcher run failed: %v", name, p)
 			return nil
